@@ -174,7 +174,7 @@ fn c03d_block_header12_accept() {
 
 // C06-E: Index::parse with an untrusted record count: no panic, and the up-front allocation is bounded by a constant
 // (it must not be proportional to a count the input merely declares).
-//@ {"name":"c06e_index_count_alloc","props":["C06"],"obligation":"C06-E","timeout":900,"functions":["xz::reader::Index::parse","xz::parse_multibyte_integer_from_reader","alloc::vec::Vec::with_capacity"],"bounds":"record-count field: any multibyte integer of 1..=9 bytes (every value < 2^63), followed by end of input; unwind 11","assumes":["input ends right after the count field"]}
+//@ {"name":"c06e_index_count_alloc","props":["C06"],"obligation":"C06-E","timeout":900,"mem_gb":9,"functions":["xz::reader::Index::parse","xz::parse_multibyte_integer_from_reader","alloc::vec::Vec::with_capacity"],"bounds":"record-count field: any multibyte integer of 1..=9 bytes (every value < 2^63), followed by end of input; unwind 11","assumes":["input ends right after the count field"]}
 #[kani::proof]
 #[kani::unwind(11)]
 fn c06e_index_count_alloc() {
